@@ -1952,8 +1952,18 @@ impl<'de, 'e> de::Deserializer<'de> for YamlDeserializer<'de, 'e> {
             #[cfg(any(feature = "garde", feature = "validator"))]
             idx: 0,
         })?;
-        if let Some(Ev::SeqEnd { .. }) = self.ev.peek()? {
-            let _ = self.ev.next()?;
+        match self.ev.peek()? {
+            Some(Ev::SeqEnd { .. }) => {
+                let _ = self.ev.next()?;
+            }
+            // The visitor stopped before the end of the sequence (a tuple, array or struct of
+            // fixed length): the surplus elements must not be left for a neighbouring position.
+            Some(other) => {
+                let location = other.location();
+                return Err(Error::unexpected("sequence end (more elements than the target takes)")
+                    .with_location(location));
+            }
+            None => {}
         }
         Ok(result)
     }
